@@ -299,7 +299,7 @@ func c19InlinableBody(c *Ctx, fi *FuncInfo) bool {
 	plain := true
 	ast.Inspect(fi.Decl.Body, func(n ast.Node) bool {
 		switch n.(type) {
-		case *ast.FuncLit, *ast.DeferStmt, *ast.GoStmt, *ast.SelectStmt, *ast.LabeledStmt:
+		case *ast.FuncLit, *ast.DeferStmt, *ast.GoStmt, *ast.SelectStmt:
 			plain = false
 		}
 		return plain
